@@ -126,31 +126,25 @@ var flOps = []string{"Put(a,x)", "Put(a,y)", "Delete(a)", "Get(a)", "Has(a)", "P
 
 // synced pool --------------------------------------------------------------------------------------
 
-type poolInst struct{ p *flushable.SyncedPool }
+type poolInst struct {
+	p        *flushable.SyncedPool
+	a, b, ua kvdb.Store // handles opened when the instance is built, so that every call below is ONE API call
+}
 
 //go:norace
 func (x *poolInst) Do(o int) string {
 	p := x.p
-	get := func(s kvdb.Store, err error, k string) string {
-		if err != nil {
-			return errs(err)
-		}
+	get := func(s kvdb.Store, k string) string {
 		v, err := s.Get([]byte(k))
 		return fmt.Sprintf("%q %v", v, err)
 	}
 	switch o {
 	case 0:
-		s, err := p.OpenDB("a")
-		if err != nil {
-			return errs(err)
-		}
-		return errs(s.Put([]byte("k"), []byte("x")))
+		return errs(x.a.Put([]byte("k"), []byte("x")))
 	case 1:
-		s, err := p.OpenDB("a")
-		return get(s, err, "k")
+		return get(x.a, "k")
 	case 2:
-		s, err := p.GetUnderlying("a")
-		return get(s, err, "k")
+		return get(x.ua, "k")
 	case 3:
 		return errs(p.Flush([]byte("id1")))
 	case 4:
@@ -160,22 +154,22 @@ func (x *poolInst) Do(o int) string {
 		sort.Strings(n)
 		return fmt.Sprint(n)
 	case 6:
-		s, err := p.OpenDB("b")
-		if err != nil {
-			return errs(err)
-		}
-		return errs(s.Put([]byte("k"), []byte("y")))
+		return errs(x.b.Put([]byte("k"), []byte("y")))
 	case 7:
-		s, err := p.OpenDB("a")
-		if err != nil {
-			return errs(err)
-		}
-		return errs(s.Delete([]byte("k")))
+		return errs(x.a.Delete([]byte("k")))
+	case 8: // the flush mark as seen through the read-only view: never the dirty mark in a sequential history
+		return get(x.ua, "flushid")
+	case 9:
+		_, err := p.OpenDB("c")
+		return errs(err)
+	case 10:
+		_, err := p.GetUnderlying("b")
+		return errs(err)
 	}
 	panic("op")
 }
 
-var poolOps = []string{"OpenDB(a).Put(k,x)", "OpenDB(a).Get(k)", "GetUnderlying(a).Get(k)", "Flush(id1)", "NotFlushedSizeEst", "Names", "OpenDB(b).Put(k,y)", "OpenDB(a).Delete(k)"}
+var poolOps = []string{"a.Put(k,x)", "a.Get(k)", "underlying(a).Get(k)", "Flush(id1)", "NotFlushedSizeEst", "Names", "b.Put(k,y)", "a.Delete(k)", "underlying(a).Get(flush mark)", "OpenDB(c)", "GetUnderlying(b)"}
 
 // wlru -------------------------------------------------------------------------------------------------
 
@@ -340,10 +334,14 @@ func components() []comp {
 	return []comp{
 		{Name: "flushable", Ops: flOps, Quick: []int{0, 2, 3, 5, 6, 7, 8, 9, 10, 11}, Setup: [][]int{nil, {0, 6, 1}},
 			New: func() inst { return &flInst{flushable.Wrap(memorydb.New())} }},
-		{Name: "syncedpool", Ops: poolOps, Quick: []int{0, 1, 2, 3, 4, 6}, Setup: [][]int{nil, {0, 3}},
+		{Name: "syncedpool", Ops: poolOps, Quick: []int{0, 1, 2, 3, 4, 6, 8, 9}, Setup: [][]int{nil, {0, 3}},
 			New: func() inst {
 				nsCounter++ // memorydb keeps a global registry of namespaces: every instance gets its own
-				return &poolInst{flushable.NewSyncedPool(memorydb.NewProducer(fmt.Sprintf("c28-%d", nsCounter)), []byte("flushid"))}
+				x := &poolInst{p: flushable.NewSyncedPool(memorydb.NewProducer(fmt.Sprintf("c28-%d", nsCounter)), []byte("flushid"))}
+				x.a, _ = x.p.OpenDB("a")
+				x.b, _ = x.p.OpenDB("b")
+				x.ua, _ = x.p.GetUnderlying("a")
+				return x
 			}},
 		{Name: "wlru", Ops: lruOps, Quick: []int{0, 1, 2, 3, 6, 7, 8, 11, 13, 14}, Setup: [][]int{nil, {0, 1}},
 			New: func() inst {
